@@ -45,6 +45,21 @@ prop('C02', 'proof', 'Verus contracts: every function on the path equals the RFC
 prop('C13', 'proof', 'Verus default obligations (no overflow, out-of-bounds, failing unwrap/expect/assert, callee preconditions) on every function under contract, no precondition on byte strings',
      'every verified function is proved panic-free for all inputs under the type-level side condition suite_ok only; setup_sender can fail only with EncapError and setup_receiver only with DecapError.')
 
+prop('C03', 'proof', 'Verus contracts on each DHKEM macro instance (X25519, P-256, P-384, P-521): encap_with_eph / decap / encap / derive_keypair / gen_keypair equal RFC 9180 section 4.1 and 7.1.3 spec functions',
+     'each of the four instances of impl_dhkem! is verified separately: Encap/AuthEncap/Decap/AuthDecap equal dhkem_encap_spec/dhkem_decap_spec (DH order, kem_context order, KEM suite id, '
+     'eae_prk/shared_secret labels, Nsecret = Nh), X25519 DeriveKeyPair equals LabeledExpand(LabeledExtract("", "dkp_prk", ikm), "sk", "", 32), gen_keypair = derive of Nsk RNG bytes. '
+     'The NIST candidate loop body is not yet under contract (assumed), stated in the evidence.')
+prop('C09', 'proof', 'Verus contract on Deserializable::from_bytes (trait level, restated on every impl) for the NIST public keys and encapsulated keys; Kani for the private-key glue',
+     'from_bytes is verified for all lengths: wrong length -> IncorrectInputLength(expected, given) before any parser runs; right length -> Ok exactly when the dependency accepts '
+     '(sec1_valid / scalar_ok), otherwise ValidationError; the parsed value re-serializes to the input. What the dependency accepts is an assumed contract.')
+prop('C10', 'proof', 'Verus contracts: encap_with_eph / decap fail with EncapError / DecapError exactly when a DH step fails, at all four dh() call sites; setup propagates unchanged; Kani for the zero comparison in X25519::dh',
+     'for the X25519 instance s_dh(sk, pk) is None exactly when X25519(sk, pk) is all-zero; encap_with_eph/decap are verified to return Err(EncapError)/Err(DecapError) iff some DH is None, '
+     'and setup_sender/setup_receiver/single_shot_* to propagate it with no context produced; non-zero results are never rejected (iff).')
+prop('C12', 'proof', 'Verus contracts on Serializable/Deserializable (sizes via typenum values, IncorrectInputLength(expected, given), ser(from_bytes(b)) == b); Kani for write_exact bodies and must-panic',
+     'from_bytes is verified for X25519 keys, NIST public keys, encapsulated keys of the 4 KEMs and AEAD tags; to_bytes/write_exact preconditions (exact buffer length) are proved at every internal call site.')
+prop('C01', 'proof', 'Verus: function contracts (setup, encap/decap, seal/open) + round-trip lemmas over the contracts (induction over the message index)',
+     'setup_sender and setup_receiver are verified equal to the same key-schedule spec function; encap and decap to dhkem_encap_spec / dhkem_decap_spec; the agreement lemma shows the two abstract contexts are equal '
+     'when pkR = pk(skR) (DH commutativity axiom), and the sequence lemma shows the i-th sealed message opens to the i-th plaintext for every sequence length.', extra=[A_IDEAL])
 
 def trusted_base(pid, res):
     tb = list(BASE) + PROPS[pid]['extra']
